@@ -1,0 +1,17 @@
+//go:build verif
+
+package allocator
+
+import "context"
+
+// VerifEpochTick runs exactly one iteration of epochLoop's ticker branch
+// (advance the epoch, then clean expired records from the store) so that the
+// verification harness can drive lease expiry without waiting for wall-clock time.
+func (da *DistributedAllocator) VerifEpochTick(ctx context.Context) uint64 {
+	da.mu.Lock()
+	newEpoch := da.epochAllocator.AdvanceEpoch()
+	da.mu.Unlock()
+
+	da.cleanupExpiredFromStore(ctx, newEpoch)
+	return newEpoch
+}
